@@ -52,7 +52,9 @@ def _worker(job):
         kw = {"exclude_pgns": list(entries)} if mode == "exclude" else {"include_pgns": list(entries)}
         # lists of numbers only: the first history also through the public binary entry point (decode_tcp)
         numeric_only = all(isinstance(e, int) for e in entries)
-        for hist, via in [(hh, None) for hh in histories] + ([(histories[0], "tcp")] if numeric_only else []):
+        # the many short histories of the thorough tier are run with lists of at most one entry; the long ones with every list
+        hs = [hh for hh in histories if len(hh) > 2 or len(entries) <= 1]
+        for hist, via in [(hh, None) for hh in hs] + ([(histories[0], "tcp")] if numeric_only else []):
             if len(rep.violations) >= 3 or _time.time() > t_stop:
                 break
             def h():
@@ -150,7 +152,7 @@ def run(tier, seed):
                      "decoder._call_decode_function", "message.IsoName.__init__", "pgns.decode_pgn_60928 / 127250 / 127506 / 65280"]
     rep.bounds = {"filter lists": "exclude xor include, 0..2 entries from %d candidates (numbers, ids in original/lower/upper case, unknown id)%s" % (
         len(ENTRIES), " - quick: all singles, a subset of the pairs" if tier == "quick" else ""),
-        "histories": "%d histories of up to 9 events (single-frame, fast-packet, multi-definition, address claims from two sources, unknown PGN)" % len(histories),
+        "histories": "%d histories (the two-event ones only with lists of at most one entry) of up to 9 events (single-frame, fast-packet, multi-definition, address claims from two sources, unknown PGN)" % len(histories),
         "data": "symbolic source addresses (distinct), heading bits, state-of-charge bits, two 64-bit NAMEs"}
     rep.outside = ["lists longer than 2 entries", "manufacturer filters (C11)"]
     nproc = 16
